@@ -345,6 +345,26 @@ def _explicit_subset(s, g, case, htot, expl_h, rec):
         back = h_to_implicit(ge)
         if _exact_equal(back, g0) is not None:
             raise Violation("implicit-roundtrip", f"{s}: h_to_implicit(h_to_explicit(g, nodes={subset})) != g: {_exact_equal(back, g0)}")
+    # ---- a partially explicit graph built by hand (not through SynKit): one hydrogen of an atom that keeps further
+    # implicit ones is written as a node; folding must give back g exactly and keep the hydrogen total
+    multi = [n for n in heavy_nodes if g.nodes[n].get("hcount", 0) >= 2]
+    if multi and not expl_h:
+        a = multi[keys[0] % len(multi)]
+        gp = copy.deepcopy(g)
+        hid = max(gp.nodes) + 1 + keys[-1] % 3
+        gp.nodes[a]["hcount"] -= 1
+        gp.add_node(hid, element="H", aromatic=False, hcount=0, charge=0, atom_map=0)
+        gp.add_edge(a, hid, order=1.0)
+        gp0 = copy.deepcopy(gp)
+        back = h_to_implicit(gp)
+        if _exact_equal(gp, gp0) is not None:
+            raise Violation("input-mutated", f"{s}: h_to_implicit changed its input")
+        if _h_total_graph(back) != htot:
+            raise Violation("h-total", f"{s}: {htot} hydrogens, {_h_total_graph(back)} after h_to_implicit of a graph with one explicit H on atom {a} (hcount {g.nodes[a].get('hcount')})")
+        if _exact_equal(back, g0) is not None:
+            raise Violation("implicit-partial", f"{s}: folding one explicit H on atom {a} does not restore the graph: {_exact_equal(back, g0)}")
+        if rec is not None:
+            rec.label("partially-explicit-checked")
     if rec is not None:
         rec.label("explicit-subset-checked")
 
